@@ -100,3 +100,12 @@ func harnessC15UpcastTargetName() {
 	vAssert(matched == 1, "typed-upcast-target-is-EventType-name")
 	vCover("checked")
 }
+
+//verif:entry property=C15 tier=both bounds="shape: nil pointer of a type with EventTypeName on pointer receiver" cover="checked"
+func harnessC15NilPointer() {
+	evNamedPName = c15Name()
+	c15Check((*evNamedP)(nil), 1)
+}
+
+//verif:entry property=C15 tier=both bounds="shape: nil pointer to a plain struct" cover="checked"
+func harnessC15NilPlainPointer() { c15Check((*evA)(nil), 1) }
